@@ -1,7 +1,7 @@
 (* C10 - reported rotation, scale, skew agree with the fitted matrix (theorems over R: they depend on the
    standard library's real-number axioms, listed by Print Assumptions below) *)
 From Coq Require Import Reals.
-From TW Require Import Atan2 Decomp Atan2Inv.
+From TW Require Import Atan2 Decomp Atan2Inv DecompSim.
 Open Scope R_scope.
 
 (* matrix = [[sx cos rx, sy sin ry], [-sx sin rx, sy cos ry]] for the reported rot and scale
@@ -47,6 +47,23 @@ Theorem C10_decomposition_inverts_build_fit_matrix : forall rx ry sx sy,
   gsx p0 q0 = sx /\ gsy p1 q1 = sy /\ grotx p0 q0 = rx /\ groty p1 q1 = ry.
 Proof. exact decomposition_of_built_matrix. Qed.
 Print Assumptions C10_decomposition_inverts_build_fit_matrix.
+
+(* similarity fits (rshift / rscale), proper: the "proper rotation" shortcut of _build_fit
+   (atan2 (w01 - sdet w10) (w00 + sdet w11), sdet = 1) equals both rotx and roty of the general decomposition *)
+Theorem C10_proper_similarity_rotation : forall a b s, 0 < s ->
+  let w00 := a / s in let w01 := b / s in let w10 := - b / s in let w11 := a / s in
+  atan2 (w01 - 1 * w10) (w00 + 1 * w11) = atan2 (- w10) w00 /\
+  atan2 (w01 - 1 * w10) (w00 + 1 * w11) = atan2 w01 w11.
+Proof. exact proper_similarity_rotation. Qed.
+Print Assumptions C10_proper_similarity_rotation.
+
+(* similarity fits, reflected ([[a, b], [b, -a]]): rx and ry are half a turn apart and the reported skew is -180
+   (the end of [-180, 180] produced by numpy's floor-mod; +180 is the same angle) *)
+Theorem C10_improper_similarity_skew : forall a b s, 0 < s -> (a <> 0 \/ b <> 0) ->
+  let w00 := a / s in let w01 := b / s in let w10 := b / s in let w11 := - a / s in
+  skew (deg (atan2 (- w10) w00)) (deg (atan2 w01 w11)) = -180.
+Proof. exact improper_similarity_skew. Qed.
+Print Assumptions C10_improper_similarity_skew.
 
 (* ---- statistics (over Q; ClipModel.stat2_encl is the executable model of _compute_stat that the C07/C10
         correspondence evaluates against the implementation's reported rmse / mae / std) ---- *)
